@@ -107,6 +107,7 @@ class WorkMeter:
     def __init__(self):
         self.count = 0
         self.budget = 1 << 62
+        self.budget_fn = None
         self.fingerprints = False
         self.heads: dict = {}
         self.last: dict = {}
@@ -164,6 +165,14 @@ class WorkMeter:
                 q = code.co_qualname
                 self.per_fn[q] = self.per_fn.get(q, 0) + 1
             if self.count > self.budget:
+                if self.budget_fn is not None:
+                    # a bound that depends on state which grows during the call (size of the diagram):
+                    # re-evaluate it when it is reached
+                    self.active = False
+                    self.budget = self.budget_fn()
+                    self.active = True
+                    if self.count <= self.budget:
+                        return
                 self.active = False
                 raise WorkBudgetExceeded(f"{code.co_qualname} ({os.path.basename(code.co_filename)})")
 
@@ -210,11 +219,16 @@ class _MeterCtx:
     def __enter__(self):
         m = self.m
         m.install()
-        self.saved = (m.count, m.budget, m.fingerprints, m.active, m.wall_limit, m.wall_deadline)
+        self.saved = (m.count, m.budget, m.fingerprints, m.active, m.wall_limit, m.wall_deadline, m.budget_fn)
         m.wall_limit = getattr(self, "wall_limit", 0.0)
         m.wall_deadline = time.monotonic() + m.wall_limit
         m.count = 0
-        m.budget = self.budget
+        if callable(self.budget):
+            m.budget_fn = self.budget
+            m.budget = self.budget()
+        else:
+            m.budget_fn = None
+            m.budget = self.budget
         m.fingerprints = self.fp
         m.last.clear()
         m.active = True
@@ -224,7 +238,7 @@ class _MeterCtx:
         m = self.m
         self.used = m.count
         m.count, m.budget, m.fingerprints, m.active = self.saved[0] + m.count, self.saved[1], self.saved[2], self.saved[3]
-        m.wall_limit, m.wall_deadline = self.saved[4], self.saved[5]
+        m.wall_limit, m.wall_deadline, m.budget_fn = self.saved[4], self.saved[5], self.saved[6]
         return False
 
 
